@@ -4,6 +4,7 @@ import (
 	"bytes"
 	"fmt"
 	"go/ast"
+	"go/constant"
 	"go/token"
 	"go/types"
 	"os"
@@ -27,6 +28,7 @@ type World struct {
 	files     []*ast.File
 	src       map[string][]byte
 	feWeight  int // :weight given to forall-exists quantifiers
+	globalCache map[*ssa.Global]*string
 }
 
 func LoadWorld(repo string, patterns []string, overlay map[string][]byte) (*World, error) {
@@ -299,4 +301,83 @@ func (w *World) lookupContract(g *Gen, c *ssa.CallCommon, name string) (*FuncCon
 		ps = append(ps, cparam{p.Name, g.resolveType(env, p.Type)})
 	}
 	return fc, pc, ps, pkg
+}
+
+// globalInit: a package-level variable of string or []byte type whose only assignment in the whole program is
+// its constant initialiser (in the package's init function) and whose address is never taken otherwise is
+// effectively a constant. Returns its literal value.
+func (w *World) globalInit(gl *ssa.Global) (string, bool) {
+	if w.globalCache == nil {
+		w.globalCache = map[*ssa.Global]*string{}
+	}
+	if p, ok := w.globalCache[gl]; ok {
+		if p == nil {
+			return "", false
+		}
+		return *p, true
+	}
+	w.globalCache[gl] = nil
+	var lit *string
+	stores := 0
+	for fn := range ssautil.AllFunctions(w.prog) {
+		for _, b := range fn.Blocks {
+			for _, in := range b.Instrs {
+				switch x := in.(type) {
+				case *ssa.Store:
+					if x.Addr == gl {
+						stores++
+						if fn.Name() != "init" {
+							return "", false
+						}
+						switch v := x.Val.(type) {
+						case *ssa.Const:
+							if v.Value != nil && v.Value.Kind() == constant.String {
+								s := constant.StringVal(v.Value)
+								lit = &s
+							}
+						case *ssa.Convert:
+							if c, ok := v.X.(*ssa.Const); ok && c.Value != nil && c.Value.Kind() == constant.String {
+								s := constant.StringVal(c.Value)
+								lit = &s
+							}
+						}
+					}
+				case *ssa.UnOp:
+					// plain loads are fine
+				default:
+					// any other use of the global's address (passed to a call, stored, indexed) makes it mutable
+					for _, op := range in.Operands(nil) {
+						if op != nil && *op == ssa.Value(gl) {
+							return "", false
+						}
+					}
+				}
+			}
+		}
+	}
+	if lit == nil || stores != 1 {
+		return "", false
+	}
+	// for []byte globals: no store through an element address of a loaded copy
+	if _, isSlice := gl.Type().Underlying().(*types.Pointer).Elem().Underlying().(*types.Slice); isSlice {
+		for fn := range ssautil.AllFunctions(w.prog) {
+			for _, b := range fn.Blocks {
+				for _, in := range b.Instrs {
+					if ld, ok := in.(*ssa.UnOp); ok && ld.X == gl {
+						for _, ref := range *ld.Referrers() {
+							if ia, ok := ref.(*ssa.IndexAddr); ok {
+								for _, r2 := range *ia.Referrers() {
+									if st, ok := r2.(*ssa.Store); ok && st.Addr == ia {
+										return "", false
+									}
+								}
+							}
+						}
+					}
+				}
+			}
+		}
+	}
+	w.globalCache[gl] = lit
+	return *lit, true
 }
